@@ -4,10 +4,11 @@ import re
 ALG = "-|1:44160000,3:43c80000"
 
 
-def node_tok(i, mode="tun-router", pt=300, ka="-", st=300, claims=None, key=1, trusted=(1,), algos=ALG, nat=False, hkf=False):
-    """hkf: the node has a lasting local fault in a late housekeeping step (a beacon file it cannot read): housekeep returns early there"""
+def node_tok(i, mode="tun-router", pt=300, ka="-", st=300, claims=None, key=1, trusted=(1,), algos=ALG, nat=False, hkf=False, adv=None):
+    """adv: the node advertises that other address as one of its own (advertise_addresses);
+    hkf: the node has a lasting local fault in a late housekeeping step (a beacon file it cannot read): housekeep returns early there"""
     return "N.%d.%s.%d.%s.%d.%s.%d.%s.%s%s" % (i, mode, pt, ka, st, ";".join(claims) if claims else "-", key,
-                                                 "+".join(str(t) for t in trusted) if trusted else "-", algos, ".nat" if nat else (".hkf" if hkf else ""))
+                                                 "+".join(str(t) for t in trusted) if trusted else "-", algos, ".nat" if nat else (".hkf" if hkf else (".adv%d" % adv if adv else "")))
 
 
 def strip_hkerr(line, out):
